@@ -64,7 +64,15 @@ def entry_points(text: str) -> List[Tuple[str, Any]]:
     except Exception:  # noqa: BLE001
         pass
     env = _K(_jp.JSONPathEnvironment())
-    comp = _K(_jp.compile(text))
+    compiled = _jp.compile(text)
+    if hasattr(compiled, "union"):
+        # deriving other queries from a compiled compound leaves the compound as it was
+        try:
+            compiled.union(_jp.compile("$"))
+            compiled.intersection(_jp.compile("$.nowhere"))
+        except Exception:  # noqa: BLE001
+            pass
+    comp = _K(compiled)
     ecomp = _K(env.compile(text))
 
     def vals(it: Any) -> List[Any]:
@@ -132,7 +140,8 @@ def replay(rec: Dict[str, Any]) -> List[Tuple[str, Dict[str, Any], str]]:
             forms = [("parsed", lambda: untag(dt["doc"]))]
             if isinstance(base, (list, dict)):
                 forms += [("json-text", lambda: json.dumps(base)), ("file", lambda: io.StringIO(json.dumps(base))),
-                          ("json-text-indented", lambda: "\n  " + json.dumps(base, indent=2) + "\n"), ("file-bytes", lambda: io.BytesIO(json.dumps(base).encode()))]
+                          ("json-text-indented", lambda: "\n  " + json.dumps(base, indent=2) + "\n"), ("file-bytes", lambda: io.BytesIO(json.dumps(base).encode())),
+                          ("file-bytes-utf16", lambda: io.BytesIO(json.dumps(base).encode("utf-16"))), ("file-bytes-bom", lambda: io.BytesIO(b"\xef\xbb\xbf" + json.dumps(base).encode()))]
             for fname, mk in forms:
                 for ename, fn in eps:
                     want = exp[:1] if ename.endswith("match") else exp
